@@ -16,6 +16,8 @@
 (*                  kinematic variables into it in place                   *)
 (*                  (deviation "DpdCacheAliasing", pinned tree);           *)
 (*   ingredients[b] scratch dictionaries of the builder, reset at the      *)
+(*                  start of Formulate also when the previous call raised  *)
+(*                  (deviation "ResetAtEnd": reset only on success);       *)
 (*                  start of Formulate (deviation "NoReset": they are      *)
 (*                  kept, so parameters of an earlier call leak).          *)
 (***************************************************************************)
@@ -63,6 +65,9 @@ Permutate(b) == /\ Tick /\ perm' = [perm EXCEPT ![b] = TRUE]
                 /\ UNCHANGED <<cfg, choice, out, dpdCache, leaked>>
 
 SubstKey(b) == <<cfg[b].stable, cfg[b].scalar>>
+\* an inadmissible configuration makes formulate() raise after it has started filling its
+\* scratch dictionaries (e.g. a stable_final_state_ids entry that is not a final-state id)
+Fails(b) == cfg[b].stable = "bogus"
 Formulate(b) ==
   /\ Tick
   /\ LET a == cfg[b].align
@@ -73,11 +78,15 @@ Formulate(b) ==
          \* parameters registered by earlier calls of this builder that the current dynamics
          \* choice does not register
          stale2 == "NoReset" \in Dev /\ leaked[b] \ { n \in Names : choice[b][n] # None } # {}
-     IN /\ out' = [out EXCEPT ![b] = [key |-> Key(b), stale |-> stale1 \/ stale2]]
+         \* a call that raised half-way (inadmissible configuration) left its partial dictionaries behind
+         stale3 == "ResetAtEnd" \in Dev /\ ~Fails(b) /\ "partial" \in leaked[b]
+     IN /\ out' = [out EXCEPT ![b] = [key |-> Key(b), stale |-> stale1 \/ stale2 \/ stale3]]
         /\ dpdCache' = IF "DpdCacheAliasing" \in Dev /\ usesDpd /\ dpdCache[a] = <<>>
                        THEN [dpdCache EXCEPT ![a] = SubstKey(b)] ELSE dpdCache
         /\ leaked' = IF "NoReset" \in Dev
                      THEN [leaked EXCEPT ![b] = @ \cup { n \in Names : choice[b][n] # None }]
+                     ELSE IF "ResetAtEnd" \in Dev
+                     THEN [leaked EXCEPT ![b] = IF Fails(b) THEN {"partial"} ELSE {}]
                      ELSE leaked
   /\ UNCHANGED <<cfg, choice, perm>>
 
